@@ -76,6 +76,7 @@ SomeLimits  == {<<5, 3, 2>>, <<4, 3, 2>>, <<3, 3, 2>>, <<5, 2, 2>>, <<5, 3, 0>>}
 OneLimit    == {<<4, 3, 2>>, <<3, 3, 2>>}
 AllLimWhere == Chains \X (Chains \cup {"own"})
 OnlyBA      == {<<"B", "A">>}                        \* B limits the wrapped token of A's origin
+OnlyAown    == {<<"A", "own">>}                      \* A limits its own token coming back
 
 (* Time-based supply limit of one token (endpoint.limits): while it is on, an arriving transfer of that token is refused *)
 (* unless min <= amount <= max and the amounts let in during the current period, this one included, stay BELOW cap;   *)
@@ -256,6 +257,11 @@ SendFake(c, d, a) == UNCHANGED stateVars /\ last' = [act |-> "SendFake", res |->
 NewClientEff(c, d, nm) == UNCHANGED stateVars
 NewClient(c, d, nm) == NewClientEff(c, d, nm) /\ last' = [act |-> "NewClient", res |-> "ok", chain |-> c, counter |-> d, name |-> nm]
 
+(* Chain c is restarted from its own exported genesis (the xibc module's export, through JSON and validation, imported into   *)
+(* the emptied module store): every receipt, acknowledgement, commitment, sequence, client and verified height is what it was. *)
+RegenesisEff(c) == UNCHANGED stateVars
+Regenesis(c) == RegenesisEff(c) /\ last' = [act |-> "Regenesis", res |-> "ok", chain |-> c]
+
 (* Governance on chain c re-registers the relayer for chain d with another counterparty address (or back).  From    *)
 (* then on the acknowledgements c writes for packets from d name that address, and acknowledgements written by d     *)
 (* that name the previous one are no longer payable on c.                                                            *)
@@ -269,6 +275,7 @@ Decoded(p, alt) ==
   CASE alt = "amt"    -> [p EXCEPT !.amt = @ + 1]
     [] alt = "seq"    -> [p EXCEPT !.seq = @ + 1]
     [] alt = "sender" -> [p EXCEPT !.mut = 1]
+    [] alt = "feeopt" -> [p EXCEPT !.mut = 2]        \* the fee option the sender chose, rewritten by the relayer
     [] alt = "src"    -> [p EXCEPT !.src = "?"]
     [] alt = "dst"    -> [p EXCEPT !.dst = "?"]
     [] OTHER          -> p                          \* none, reenc
@@ -396,6 +403,7 @@ Next ==
   \/ \E c \in Chains : \E d \in Others(c) : Retoggle(c, d)
   \/ \E c \in Chains : \E d \in Others(c), nm \in {"prefix", "ext"} : NewClient(c, d, nm)
   \/ \E c \in Chains : \E d \in Others(c), a \in Amts : SendFake(c, d, a)
+  \/ \E c \in Chains : Regenesis(c)
   \/ \E c \in Chains : \E d \in Others(c) : WithRotate /\ Rotate(c, d)
   \/ \E c \in Chains : \E x \in LimKeys(c), t \in LimitSets : <<c, x>> \in LimWhere /\ EnableLimit(c, x, t)
   \/ \E c \in Chains : \E x \in LimKeys(c) : LimitSets # {} /\ <<c, x>> \in LimWhere /\ DisableLimit(c, x)
